@@ -49,59 +49,270 @@ def invented_names(design):
     return out
 
 
-def rename_design(design, rng, intensity=0.7):
-    """Rename designer names (signals, instances, bundle instances) of each module to invented names. Returns (design, mapping)."""
-    d = copy.deepcopy(design)
-    inv = invented_names(design)
-    mapping = {}
+MEMBER_TARGETS = ["x", "y", "x_", "y_", "x_y", "y_x", "x_y_", "y_x_", "x__", "y_x_y"]
+MAXLEN = 511  # ElabPass.flatname(maxlen=511)
+
+
+def rename_members(d, rng):
+    """Rename bundle members everywhere, by one injective map: member names are chosen so that two flattened names
+    of one bundle coincide (sub-bundle `y` with member `x` next to a scalar member `y_x`; members `x` and `x_`)."""
+    names = ["x", "y", "z", "u", "v"]
+    # opportunities in the bundle definitions at hand
+    opps = []
+
+    def scan(t):
+        sg = [x["n"] for x in t["sigs"]]
+        for a in sg:
+            for b in sg:
+                if a != b:
+                    opps.append({a: "x", b: "x_"})  # x and x_ : the second clash-avoiding step lands on the first's name
+        for sub in t["subs"]:
+            inner = [x["n"] for x in sub["of"]["sigs"]] + [x["n"] for x in sub["of"]["subs"]]
+            for mem in inner:
+                for sib in sg:
+                    if len({sub["n"], mem, sib}) == 3:
+                        opps.append({sub["n"]: "y", mem: "x", sib: "y_x"})  # y.x next to y_x
+            scan(sub["of"])
+
+    for bd in d["bundles"]:
+        if bd["name"] != "Diff":
+            scan(bd["tree"])
+    mp = dict(rng.choice(opps)) if opps and rng.random() < 0.7 else {}
+    rest = [t for t in MEMBER_TARGETS if t not in mp.values()]
+    rng.shuffle(rest)
+    for n in names:
+        if n not in mp:
+            mp[n] = rest.pop()
+    apply_member_map(d, mp)
+    return mp
+
+
+def apply_member_map(d, mp):
+
+    def tree(t):
+        for sg in t["sigs"]:
+            sg["n"] = mp.get(sg["n"], sg["n"])
+        for sub in t["subs"]:
+            sub["n"] = mp.get(sub["n"], sub["n"])
+            tree(sub["of"])
+
+    for bd in d["bundles"]:
+        if bd["name"] != "Diff":
+            tree(bd["tree"])
+
+    def conn(c, on_diff):
+        k = c["k"]
+        if k == "bref":
+            c["path"] = [mp.get(x, x) for x in c["path"]]
+        elif k == "slice":
+            conn(c["p"], on_diff)
+        elif k == "concat":
+            for q in c["ps"]:
+                conn(q, on_diff)
+        elif k == "anon":
+            for f in c["fields"]:
+                if not on_diff:
+                    f[0] = mp.get(f[0], f[0])
+                conn(f[1], False)
+
     for m in d["modules"]:
-        cands = sorted(inv[m["name"]])
-        rng.shuffle(cands)
-        own = [("sig", s["n"]) for s in m["sigs"]] + [("inst", i["n"]) for i in m["insts"]] + [("bundle", b["n"]) for b in m["bundles"]]
+        diff_insts = {b["n"] for b in m["bundles"] if b["of"] == "Diff"}
+        for i in m["insts"]:
+            if "pair" in i and i.get("pair_of", "Diff") != "Diff":
+                i["pair"] = [mp.get(x, x) for x in i["pair"]]
+            for pc in i["conns"]:
+                on_diff = "pair" in i and i.get("pair_of", "Diff") == "Diff"
+                conn(pc[1], on_diff)
+        # references into Diff instances keep p / n (they are not in the map anyway)
+
+
+def apply_rename(d, mname, kind, old, new):
+    """Rename one designer object of module `mname`, and every mention of it."""
+    m = next(x for x in d["modules"] if x["name"] == mname)
+    r = lambda n: new if n == old else n
+    if kind == "sig":
+        for sg in m["sigs"]:
+            sg["n"] = r(sg["n"])
+    if kind == "bundle":
+        for bd in m["bundles"]:
+            bd["n"] = r(bd["n"])
+
+    def rc(c):
+        k = c["k"]
+        if k == "sig" and kind == "sig" or k == "bundle" and kind == "bundle":
+            c["n"] = r(c["n"])
+        elif k == "pref" and kind == "inst":
+            c["inst"] = r(c["inst"])
+        elif k == "bref" and kind == "bundle":
+            c["root"] = r(c["root"])
+        elif k == "slice":
+            rc(c["p"])
+        elif k == "concat":
+            for q in c["ps"]:
+                rc(q)
+        elif k == "anon":
+            for f in c["fields"]:
+                rc(f[1])
+
+    for i in m["insts"]:
+        if kind == "inst":
+            i["n"] = r(i["n"])
+        for pc in i["conns"]:
+            rc(pc[1])
+    # a renamed port (signal or bundle port) changes the connections of the module's instances in its parents
+    if kind in ("sig", "bundle"):
+        for pm in d["modules"]:
+            for i in pm["insts"]:
+                if i["of"]["k"] == "module" and i["of"]["name"] == mname:
+                    for pc in i["conns"]:
+                        if pc[0] == old:
+                            pc[0] = new
+
+
+def hot_names(d, m):
+    """the names that certainly get invented: behind port references and no-connects actually present in the module"""
+    out = set()
+
+    def walk(c):
+        if c["k"] == "pref":
+            out.add(f"{c['inst']}_{c['port']}")
+        for sub in c.get("ps", []) + ([c["p"]] if isinstance(c.get("p"), dict) else []) + [v for _, v in c.get("fields", [])]:
+            walk(sub)
+
+    bt = {b["name"]: b["tree"] for b in d["bundles"]}
+    for bd in m["bundles"]:
+        out.update(f"{bd['n']}_" + "_".join(path) for path, _ in gen_design.tree_leaves(bt[bd["of"]]))
+    for i in m["insts"]:
+        out.update(f"{i['n']}_{k}" for k in range(i.get("array", 0)))
+        out.update(f"{i['n']}_{mem}" for mem in i.get("pair", []))
+        for port, c in i["conns"]:
+            walk(c)
+            if c["k"] == "noconn":
+                out.add(c.get("name") or f"{i['n']}_{port}")
+    return out
+
+
+def rename_design(design, rng, intensity=0.7):
+    """Rename designer names (signals, instances, bundle instances) to names the elaborator invents — one object at a time,
+    the invented names being recomputed after every step (an instance's new name changes what is invented for it).
+    Returns (design, mapping)."""
+    d = copy.deepcopy(design)
+    mapping = {}
+    if rng.random() < 0.5:
+        mapping["#members"] = rename_members(d, rng)
+    for mname in [m["name"] for m in d["modules"]]:
+        m = next(x for x in d["modules"] if x["name"] == mname)
+        own = [("sig", x["n"]) for x in m["sigs"]] + [("inst", i["n"]) for i in m["insts"]] + [("bundle", b["n"]) for b in m["bundles"]]
         rng.shuffle(own)
         ren = {}
-        taken = {n for _, n in own}
         for kind, n in own:
-            if cands and rng.random() < intensity:
-                new = cands.pop()
-                if new in taken or new in ren.values():
-                    continue
-                ren[n] = new
-        mapping[m["name"]] = ren
-        r = lambda n: ren.get(n, n)
-        for s in m["sigs"]:
-            s["n"] = r(s["n"])
-        for b in m["bundles"]:
-            b["n"] = r(b["n"])
-
-        def rc(c):
-            k = c["k"]
-            if k == "sig" or k == "bundle":
-                c["n"] = r(c["n"])
-            elif k == "pref":
-                c["inst"] = r(c["inst"])
-            elif k == "bref":
-                c["root"] = r(c["root"])
-            elif k == "slice":
-                rc(c["p"])
-            elif k == "concat":
-                for p in c["ps"]:
-                    rc(p)
-            elif k == "anon":
-                for f in c["fields"]:
-                    rc(f[1])
-        for i in m["insts"]:
-            i["n"] = r(i["n"])
-            for pc in i["conns"]:
-                rc(pc[1])
-    # port names of modules changed: fix the connections of their instances in parents
-    for m in d["modules"]:
-        for i in m["insts"]:
-            if i["of"]["k"] == "module":
-                ren = mapping[i["of"]["name"]]
-                for pc in i["conns"]:
-                    pc[0] = ren.get(pc[0], pc[0])
+            if rng.random() >= intensity:
+                continue
+            taken = {x["n"] for x in m["sigs"]} | {i["n"] for i in m["insts"]} | {b["n"] for b in m["bundles"]}
+            cands = sorted(invented_names(d)[mname] - taken)
+            if kind == "inst":
+                # not a name derived from the instance itself: it would move with the renaming
+                cands = [c for c in cands if not c.startswith(n + "_")] or cands
+            if not cands:
+                continue
+            hot = [c for c in cands if c.rstrip("_") in hot_names(d, m)]
+            new = rng.choice(hot if hot and rng.random() < 0.6 else cands)
+            apply_rename(d, mname, kind, n, new)
+            ren[n] = new
+        mapping[mname] = ren
     return d, mapping
+
+
+def long_names(design, rng):
+    """Names at the length limit of `flatname`: an instance is renamed so that a name invented from it is exactly 509..512
+    characters long, and designer signals take that name and its trailing-underscore variants."""
+    d = copy.deepcopy(design)
+    mods = [m for m in d["modules"] if m["insts"]]
+    if not mods:
+        return None
+    m = rng.choice(mods)
+    inst = rng.choice(m["insts"])
+    inv0 = sorted(x for x in invented_names(d)[m["name"]] if x.startswith(inst["n"] + "_") and not x.endswith("_"))
+    if not inv0:
+        return None
+    target = rng.choice(inv0)
+    want = rng.choice([MAXLEN - 2, MAXLEN - 1, MAXLEN, MAXLEN, MAXLEN + 1])
+    pad = want - len(target)
+    oldinst = inst["n"]
+    newinst = oldinst + "q" * pad
+    apply_rename(d, m["name"], "inst", oldinst, newinst)
+    longname = newinst + target[len(oldinst):]
+    assert len(longname) == want
+    sigs = [x for x in m["sigs"] if not x["port"]] or m["sigs"]
+    rng.shuffle(sigs)
+    ren = {}
+    for k, sg in enumerate(sigs[: rng.randint(1, 3)]):
+        new = longname + "_" * k
+        ren[sg["n"]] = f"<{len(new)} chars>"
+        apply_rename(d, m["name"], "sig", sg["n"], new)
+    return d, {m["name"]: ren, "#long": want}
+
+
+
+def corpus():
+    """One friendly design and a rename script per clash class (the classes the quantifier names): each is run with the
+    friendly and with the adversarial names.  (module, kind, old, new); `members` renames bundle members."""
+    R = {"k": "leaf", "kind": "vlsir.primitives.resistor", "ports": [{"n": "p", "w": 1}, {"n": "n", "w": 1}], "params": [["r", "P:5"]],
+         "py": {"k": "prim", "name": "R", "params": {"r": 5}}}
+    sg = lambda n, w=1, port=False: {"n": n, "w": w, "port": port, "dir": "none"}
+    S = lambda n: {"k": "sig", "n": n}
+    leaf = gen_design.leaf_sig
+    out = []
+
+    def top(sigs, insts, bundles=(), bdefs=(), mods=()):
+        return {"bundles": list(bdefs), "modules": list(mods) + [{"name": "Top", "sigs": sigs, "bundles": list(bundles), "insts": insts}], "top": "Top"}
+
+    # the implicit signal behind a port reference / an unnamed no-connect / a named no-connect
+    base = top([sg("s1"), sg("s2"), sg("s3")],
+               [{"n": "i1", "of": R, "conns": [["n", S("s1")]]},
+                {"n": "i2", "of": R, "conns": [["p", {"k": "pref", "inst": "i1", "port": "p"}], ["n", {"k": "noconn"}]]},
+                {"n": "i3", "of": R, "conns": [["p", S("s2")], ["n", {"k": "noconn", "name": "nc1"}]]},
+                {"n": "i4", "of": R, "conns": [["p", S("s3")], ["n", S("s3")]]},
+                {"n": "i5", "of": R, "conns": [["p", S("s3")], ["n", S("s1")]], "array": 2}])
+    for script in ([("sig", "s3", "i1_p")], [("sig", "s3", "i2_n")], [("sig", "s3", "nc1")], [("inst", "i4", "i1_p")], [("inst", "i5", "i1_p")],
+                   [("inst", "i4", "i2_n")], [("inst", "i4", "nc1")], [("sig", "s3", "i1_p"), ("sig", "s2", "i1_p_")],
+                   [("sig", "s3", "i5_0")], [("inst", "i4", "i5_1")], [("sig", "s2", "i5_0"), ("inst", "i4", "i5_0_")]):
+        out.append((base, script, None))
+    # flattened bundle members: designer names, and two members of one bundle
+    B = {"name": "B0", "tree": {"sigs": [leaf("x", 1), leaf("u", 1), leaf("z", 1)], "subs": [{"n": "y", "flip": False, "role": None, "of": {"sigs": [leaf("v", 1)], "subs": []}}]}}
+    child = {"name": "M0", "sigs": [sg("t1")], "bundles": [{"n": "bp", "of": "B0", "port": True}],
+             "insts": [{"n": "i1", "of": R, "conns": [["p", {"k": "bref", "root": "bp", "path": ["x"]}], ["n", {"k": "bref", "root": "bp", "path": ["u"]}]]},
+                       {"n": "i2", "of": R, "conns": [["p", {"k": "bref", "root": "bp", "path": ["z"]}], ["n", {"k": "bref", "root": "bp", "path": ["y", "v"]}]]},
+                       {"n": "i3", "of": R, "conns": [["p", S("t1")], ["n", {"k": "bref", "root": "bp", "path": ["x"]}]]}]}
+    fields = [["x", S("a")], ["u", S("b")], ["z", S("c")], ["y", {"k": "anon", "fields": [["v", S("d")]]}]]
+    base = top([sg("a"), sg("b"), sg("c"), sg("d")], [{"n": "i1", "of": {"k": "module", "name": "M0"}, "conns": [["bp", {"k": "anon", "fields": fields}]]}],
+               bdefs=[B], mods=[child])
+    for members, script in (({"x": "x", "u": "x_"}, [("M0", "sig", "t1", "bp_x")]), ({"y": "y", "v": "x", "z": "y_x"}, []),
+                            ({"y": "y", "v": "x", "z": "y_x", "u": "y_x_"}, []), ({"x": "x", "u": "x_", "z": "x__"}, [("M0", "sig", "t1", "bp_x")]),
+                            ({}, [("M0", "sig", "t1", "bp_x")]), ({}, [("M0", "inst", "i3", "bp_y_v")])):
+        out.append((base, script, members))
+    # instance bundles: designer instance on a member's name; two members; two instance bundles
+    IB = {"name": "IB0", "ib": True, "tree": {"sigs": [leaf("x", 1), leaf("u", 1)], "subs": []}}
+    IC = {"name": "IB1", "ib": True, "tree": {"sigs": [leaf("z", 1)], "subs": []}}
+    base = top([sg("a"), sg("b"), sg("c")],
+               [{"n": "i1", "of": R, "pair": ["x", "u"], "pair_of": "IB0", "conns": [["p", {"k": "anon", "fields": [["x", S("a")], ["u", S("b")]]}], ["n", S("c")]]},
+                {"n": "i2", "of": R, "pair": ["z"], "pair_of": "IB1", "conns": [["p", S("b")], ["n", S("c")]]},
+                {"n": "i3", "of": R, "conns": [["p", S("a")], ["n", S("c")]]},
+                {"n": "i4", "of": R, "pair": ["p", "n"], "conns": [["p", S("a")], ["n", S("b")]]}], bdefs=[gen_design.DIFF, IB, IC])
+    for members, script in (({"x": "x", "u": "x_"}, [("inst", "i3", "i1_x")]), ({"x": "x_y", "z": "y"}, [("inst", "i2", "i1_x")]),
+                            ({"x": "x", "u": "x_"}, [("sig", "c", "i1_x")]), ({}, [("inst", "i3", "i4_p")]), ({}, [("inst", "i3", "i4_n"), ("sig", "c", "i4_n_")]),
+                            ({"z": "x_y", "x": "y"}, [("inst", "i1", "i2_x")])):
+        out.append((base, script, members))
+    cases = []
+    for base, script, members in out:
+        d = copy.deepcopy(base)
+        if members:
+            apply_member_map(d, dict({"x": "x", "y": "y", "z": "z", "u": "u", "v": "v"}, **members))
+        for step in script:
+            mod, kind, old, new = step if len(step) == 4 else ("Top",) + tuple(step)
+            apply_rename(d, mod, kind, old, new)
+        cases.append((base, d))
+    return cases
 
 
 def descriptors(partition, devices, topports):
@@ -128,15 +339,19 @@ def run(ctx):
         "design, incl. trailing-underscore variants); non-trivial = at least one designer name equals an invented name; distinct = distinct renamed design"
     )
     n = 120 if ctx.quick else 2500
-    base = designs.gen_cases(rng, n, styles=("proc", "class", "gen"))
+    base = designs.gen_cases(rng, n, opts={"ibtypes": True, "pair_prob": 0.3, "ib_prob": 0.75}, styles=("proc", "class", "gen"))
     outs = ctx.drv.run([designs.sem_line(c, None) for c in base])
     valid = [c for c, o in zip(base, outs) if "ok" in o["src"]]
     cases, friendly = [], []
+    for k, (fd, ad_) in enumerate(corpus()):
+        for style in ("proc", "class"):
+            cases.append({"design": ad_, "style": style, "netlist": False})
+            friendly.append({"design": fd, "style": style})
     for c in valid:
-        for _ in range(2):
-            d2, mp = rename_design(c["design"], rng)
-            if any(mp[m] for m in mp):
-                cases.append({"design": d2, "style": c["style"], "netlist": False})
+        for k in range(3):
+            r = rename_design(c["design"], rng) if k < 2 else long_names(c["design"], rng)
+            if r and any(r[1][m] for m in r[1]):
+                cases.append({"design": r[0], "style": c["style"], "netlist": False})
                 friendly.append(c)
     fr = designs.run_designs(ctx, [dict(c, netlist=False) for c in friendly])
     ad = designs.run_designs(ctx, cases)
